@@ -13,6 +13,7 @@ import (
 	"strconv"
 	"strings"
 	"sync"
+	"syscall"
 	"time"
 
 	"github.com/anishathalye/porcupine"
@@ -225,7 +226,57 @@ func (p *storeProp) genGCRace(r *Rand) *StoreParams {
 	return sp
 }
 
+// genSaveStorm: after a sequential prologue several tasks issue index-saving operations at the
+// same time (Tag, Untag, Push of a manifest); what reaches index.json must be what the live
+// store holds - the reopen comparisons after quiescence decide that.
+func (p *storeProp) genSaveStorm(r *Rand) *StoreParams {
+	sp := &StoreParams{Kind: "oci", Tasks: r.Range(3, 4), AutoGC: r.Bool(), AutoSave: true}
+	sp.Graph = *GenGraph(r, GraphOpts{MaxNodes: 10, Referrers: true, OneDigest: true, NoTwins: true})
+	g := sp.Graph.Build()
+	var manifs []int
+	late := map[int]bool{}
+	for _, n := range g.Nodes {
+		if n.IsManif {
+			manifs = append(manifs, n.ID)
+		}
+	}
+	if len(manifs) == 0 {
+		return nil
+	}
+	for _, m := range manifs {
+		if r.Chance(0.3) {
+			late[m] = true
+		}
+	}
+	for i := range g.Nodes {
+		if !late[i] {
+			sp.Prologue = append(sp.Prologue, SOp{Op: "push", Node: i})
+		}
+	}
+	if r.Bool() {
+		sp.Prologue = append(sp.Prologue, SOp{Op: "tag", Node: pick(r, manifs), Ref: "latest"})
+	}
+	for t := 0; t < sp.Tasks; t++ {
+		for k := r.Range(1, 2); k > 0; k-- {
+			switch x := r.Intn(6); {
+			case x < 4:
+				sp.Ops = append(sp.Ops, SOp{Op: "tag", Node: pick(r, manifs), Ref: pick(r, storeRefs), Task: t})
+			case x == 4:
+				sp.Ops = append(sp.Ops, SOp{Op: "untag", Ref: pick(r, storeRefs), Task: t})
+			default:
+				sp.Ops = append(sp.Ops, SOp{Op: "push", Node: pick(r, manifs), Task: t})
+			}
+		}
+	}
+	return sp
+}
+
 func (p *storeProp) Gen(r *Rand, tier string, idx int) any {
+	if p.id == "C08" && r.Chance(0.1) {
+		if sp := p.genSaveStorm(r); sp != nil {
+			return sp
+		}
+	}
 	if p.id == "C09" && r.Chance(0.1) {
 		if sp := p.genTagRace(r); sp != nil {
 			return sp
@@ -387,6 +438,9 @@ func (p *storeProp) Gen(r *Rand, tier string, idx int) any {
 	if sp.Kind == "oci" && sp.Tasks == 1 && (p.id == "C08" || p.id == "C07") {
 		if r.Chance(0.4) {
 			sp.Ops = append(sp.Ops, SOp{Op: "reopen", How: fmt.Sprintf("fscancel%d", r.Range(1, 9))})
+		}
+		if r.Chance(0.4) {
+			sp.Ops = append(sp.Ops, SOp{Op: "reopen", How: fmt.Sprintf("fsfail%d", r.Range(1, 9))})
 		}
 		for _, how := range []string{"fs", "tar", "external", "new"} {
 			sp.Ops = append(sp.Ops, SOp{Op: "reopen", How: how})
@@ -1065,6 +1119,21 @@ func (c *cancelFS) Open(name string) (fs.File, error) {
 	return c.FS.Open(name)
 }
 
+// failFS fails its at-th Open with an I/O error that is not "does not exist".
+type failFS struct {
+	fs.FS
+	at int
+	n  int
+}
+
+func (f *failFS) Open(name string) (fs.File, error) {
+	f.n++
+	if f.n == f.at {
+		return nil, &fs.PathError{Op: "open", Path: name, Err: syscall.EIO}
+	}
+	return f.FS.Open(name)
+}
+
 // checkLayout verifies the on-disk layout.
 func checkLayout(dir string) string {
 	b, err := os.ReadFile(filepath.Join(dir, "oci-layout"))
@@ -1250,6 +1319,10 @@ func (sr *storeRun) reopen(how string) *Verdict {
 		cancelAt, _ = strconv.Atoi(strings.TrimPrefix(how, "fscancel"))
 		how = "fscancel"
 	}
+	if strings.HasPrefix(how, "fsfail") {
+		cancelAt, _ = strconv.Atoi(strings.TrimPrefix(how, "fsfail"))
+		how = "fsfail"
+	}
 	cur := sr.store.(*oci.Store)
 	if !sr.sp.AutoSave {
 		if err := cur.SaveIndex(); err != nil {
@@ -1286,6 +1359,21 @@ func (sr *storeRun) reopen(how string) *Verdict {
 				return
 			}
 			sr.info.Probes["reopen_cancelled_midway_succeeded"]++
+		case "fsfail":
+			// the k-th file of the layout cannot be opened (EIO): the load must fail, or the store
+			// must be complete all the same
+			ffs := &failFS{FS: os.DirFS(sr.dir), at: cancelAt}
+			re, err = oci.NewFromFS(context.Background(), ffs)
+			hit := ffs.n >= ffs.at
+			ffs.at = 0 // only the load meets the failure, not the questions asked afterwards
+			if err != nil {
+				sr.info.Probes["reopen_with_unreadable_file_failed"]++
+				err = nil
+				return
+			}
+			if hit {
+				sr.info.Probes["reopen_with_unreadable_file_succeeded"]++
+			}
 		case "tar":
 			tp := filepath.Join(sr.rc.DiskDir, "layout.tar")
 			if err = tarDir(sr.dir, tp); err == nil {
